@@ -18,6 +18,7 @@ const smtpRel = "pkg/server/smtp"
 type smtpModel struct {
 	sess                   *types.Named
 	fState, fFrom, fRecips *types.Var
+	fHolder                *types.Var // the by-value record field of Session that holds the envelope fields, if any
 	fText                  *types.Var
 	fMaxBytes, fMaxRecips  *types.Var
 	stateT                 *types.Named
@@ -33,6 +34,7 @@ type smtpModel struct {
 	deliverObj             *types.Func
 	deliverSites           []ssa.CallInstruction
 	fns                    []*ssa.Function
+	sendWrap               map[*ssa.Function]bool
 	ok                     bool
 }
 
@@ -41,8 +43,16 @@ func (c *Ctx) smtp() *smtpModel {
 	m := &smtpModel{states: map[string]int64{}, stateName: map[int64]string{}}
 	m.sess = p.Named(smtpRel, "Session")
 	m.fState = p.Field(smtpRel, "Session", "state")
-	m.fFrom = p.Field(smtpRel, "Session", "from")
-	m.fRecips = p.Field(smtpRel, "Session", "recipients")
+	// the envelope fields are found by what they hold: the *policy.Origin and the
+	// []*policy.Recipient of the session, directly in Session or in a record Session embeds by
+	// value (s.env.from); by name only if the types do not single them out
+	m.fFrom, m.fRecips, m.fHolder = envelopeFields(p, m.sess)
+	if m.fFrom == nil {
+		m.fFrom = p.Field(smtpRel, "Session", "from")
+	}
+	if m.fRecips == nil {
+		m.fRecips = p.Field(smtpRel, "Session", "recipients")
+	}
 	m.fText = p.Field(smtpRel, "Session", "text")
 	m.fMaxBytes = p.Field("pkg/config", "SMTP", "MaxMessageBytes")
 	m.fMaxRecips = p.Field("pkg/config", "SMTP", "MaxRecipients")
@@ -100,6 +110,9 @@ func (c *Ctx) smtp() *smtpModel {
 				}
 				// the envelope reset clears the sender and/or the recipient list
 				if (eng.SameField(f, m.fRecips) || eng.SameField(f, m.fFrom)) && eng.IsNilConst(x.Val) && !fresh {
+					isR = true
+				}
+				if m.zeroesEnvelope(x) && !fresh {
 					isR = true
 				}
 			case *ssa.Alloc:
@@ -200,7 +213,55 @@ func (m *smtpModel) entersState(name string) eng.Pred {
 // isSend matches calls of the reply writer; isReset of the envelope reset.
 func (m *smtpModel) isSend(in ssa.Instruction) bool {
 	call, ok := in.(*ssa.Call)
-	return ok && eng.StaticCallee(call.Common()) == m.send
+	if !ok {
+		return false
+	}
+	g := eng.StaticCallee(call.Common())
+	return g != nil && (g == m.send || m.isSendWrapper(g))
+}
+
+// isSendWrapper: g is a printf-style front of the reply writer: its body is
+// send(fmt.Sprintf(format, args...)) with format and args its own parameters (sendf). A call of
+// it is a reply whose text is that format applied to the operand pack.
+func (m *smtpModel) isSendWrapper(g *ssa.Function) bool {
+	if g == nil || m.send == nil || g == m.send || len(g.Blocks) != 1 || g.Parent() != nil || !g.Signature.Variadic() || eng.FuncPkgPath(g) != eng.FuncPkgPath(m.send) {
+		return false
+	}
+	if v, ok := m.sendWrap[g]; ok {
+		return v
+	}
+	if m.sendWrap == nil {
+		m.sendWrap = map[*ssa.Function]bool{}
+	}
+	m.sendWrap[g] = false
+	var sends, sprintfs, others int
+	okShape := true
+	for _, in := range g.Blocks[0].Instrs {
+		call, ok := in.(*ssa.Call)
+		if !ok {
+			continue
+		}
+		switch {
+		case eng.StaticCallee(call.Common()) == m.send:
+			sends++
+			sp, isCall := call.Call.Args[len(call.Call.Args)-1].(*ssa.Call)
+			if !isCall || eng.CalleeName(sp.Common()) != "fmt.Sprintf" || len(sp.Call.Args) != 2 {
+				okShape = false
+				break
+			}
+			f, isP := sp.Call.Args[0].(*ssa.Parameter)
+			a, isP2 := sp.Call.Args[1].(*ssa.Parameter)
+			if !isP || !isP2 || f.Parent() != g || a.Parent() != g || eng.ParamIndex(a) != len(g.Params)-1 || eng.ParamIndex(f) != len(g.Params)-2 {
+				okShape = false
+			}
+		case eng.CalleeName(call.Common()) == "fmt.Sprintf":
+			sprintfs++
+		default:
+			others++
+		}
+	}
+	m.sendWrap[g] = okShape && sends == 1 && sprintfs == 1 && others == 0
+	return m.sendWrap[g]
 }
 
 func (m *smtpModel) isReset(in ssa.Instruction) bool {
@@ -212,6 +273,19 @@ func (m *smtpModel) isReset(in ssa.Instruction) bool {
 func (m *smtpModel) sendPrefix(in ssa.Instruction) (string, bool) {
 	call := in.(*ssa.Call)
 	args := call.Call.Args
+	if g := eng.StaticCallee(call.Common()); g != m.send && m.isSendWrapper(g) && len(args) >= 2 {
+		// the constant part of the format before its first verb
+		f, ok := eng.ConstString(args[len(args)-2])
+		if !ok {
+			return "", false
+		}
+		for i := 0; i < len(f); i++ {
+			if f[i] == '%' {
+				return f[:i], true
+			}
+		}
+		return f, true
+	}
 	return eng.ReplyPrefix(args[len(args)-1])
 }
 
@@ -284,4 +358,81 @@ func (m *smtpModel) liftToDataReader(p *eng.Prog, site ssa.CallInstruction) (ssa
 		cur = ci
 	}
 	return nil, nil, false
+}
+
+// envelopeFields finds the sender and recipient-list fields of the SMTP session by type, in
+// Session itself or in a struct-typed (by value) field of it declared in the same package.
+func envelopeFields(p *eng.Prog, sess *types.Named) (from, recips, holder *types.Var) {
+	if sess == nil {
+		return nil, nil, nil
+	}
+	st, ok := sess.Underlying().(*types.Struct)
+	if !ok {
+		return nil, nil, nil
+	}
+	isNamedPtrTo := func(t types.Type, pkgSuffix, name string) bool {
+		pt, ok := t.(*types.Pointer)
+		if !ok {
+			return false
+		}
+		n, ok := pt.Elem().(*types.Named)
+		return ok && n.Obj().Name() == name && n.Obj().Pkg() != nil && strings.HasSuffix(n.Obj().Pkg().Path(), pkgSuffix)
+	}
+	var froms, recs []*types.Var
+	holders := map[*types.Var]*types.Var{}
+	scan := func(s *types.Struct, h *types.Var) {
+		for i := 0; i < s.NumFields(); i++ {
+			f := s.Field(i)
+			if isNamedPtrTo(f.Type(), "/pkg/policy", "Origin") {
+				froms = append(froms, f)
+				holders[f] = h
+			}
+			if sl, ok := f.Type().Underlying().(*types.Slice); ok && isNamedPtrTo(sl.Elem(), "/pkg/policy", "Recipient") {
+				recs = append(recs, f)
+				holders[f] = h
+			}
+		}
+	}
+	scan(st, nil)
+	for i := 0; i < st.NumFields(); i++ {
+		f := st.Field(i)
+		if n, ok := f.Type().(*types.Named); ok && n.Obj().Pkg() == sess.Obj().Pkg() {
+			if inner, ok := n.Underlying().(*types.Struct); ok {
+				scan(inner, f)
+			}
+		}
+	}
+	if len(froms) == 1 {
+		from = froms[0]
+	}
+	if len(recs) == 1 {
+		recips = recs[0]
+	}
+	if from != nil && recips != nil && holders[from] == holders[recips] {
+		holder = holders[from]
+	}
+	return from, recips, holder
+}
+
+// zeroesEnvelope: st replaces the whole envelope record by its zero value (s.env = envelope{}),
+// which clears the sender and the recipient list at once.
+func (m *smtpModel) zeroesEnvelope(st *ssa.Store) bool {
+	if m.fHolder == nil {
+		return false
+	}
+	fa, ok := st.Addr.(*ssa.FieldAddr)
+	if !ok || !eng.SameField(eng.FieldOfAddr(fa), m.fHolder) {
+		return false
+	}
+	k, ok := st.Val.(*ssa.Const)
+	return ok && k.Value == nil
+}
+
+// storesEnvelope: st assigns the whole envelope record (zero or not).
+func (m *smtpModel) storesEnvelope(st *ssa.Store) bool {
+	if m.fHolder == nil {
+		return false
+	}
+	fa, ok := st.Addr.(*ssa.FieldAddr)
+	return ok && eng.SameField(eng.FieldOfAddr(fa), m.fHolder)
 }
